@@ -26,7 +26,7 @@ ANCHORS = ['numdifftools.finite_difference:LogRule._fd_matrix', 'numdifftools.fi
            'numdifftools.finite_difference:LogRule._flip_fd_rule', 'numdifftools.finite_difference:LogRule.richardson_step',
            'numdifftools.finite_difference:LogRule.method_order', 'numdifftools.finite_difference:LogRule._apply',
            'numdifftools.core:Derivative.set_richardson_rule']
-MIN_COUNTERS = dict(quick={'moments_asserted': 10000, 'end_to_end_asserted': 30000, 'pairing_asserted': 1500, 'pairing_after_switch_asserted': 1200,
+MIN_COUNTERS = dict(quick={'moments_asserted': 10000, 'end_to_end_asserted': 30000, 'pairing_asserted': 1500, 'multivariate_pairing_asserted': 800, 'pairing_after_switch_asserted': 1200,
                            'leading_power_asserted': 1500, 'parity_class:0': 100, 'parity_class:1': 50,
                            'parity_class:2': 50, 'parity_class:3': 20, 'parity_class:4': 20, 'parity_class:5': 20,
                            'parity_class:6': 20, 'flipped_rules': 100},
@@ -103,13 +103,20 @@ def moment_system(method, n, order, ratio):
     return cond2, T, bool(cond2 >= 0.1 / (T * EPS))
 
 
+_RULE_RATIOS = None       # while a list: the step ratios LogRule.rule is asked for (observer)
+
+
 def setup(ctx, mon):
     import numdifftools  # noqa
 
     def on_fd(frame, ret):
         ctx.count('parity_class:%d' % frame.f_locals.get('parity', -1))
+    def on_rule(frame):
+        if _RULE_RATIOS is not None:
+            _RULE_RATIOS.append(frame.f_locals.get('step_ratio'))
     for a in ANCHORS:
-        mon.watch(a, on_return=on_fd if a.endswith('_fd_matrix') else None)
+        mon.watch(a, on_return=on_fd if a.endswith('_fd_matrix') else None,
+                  on_start=on_rule if a.endswith('LogRule.rule') else None)
 
 
 def cases(rng, tier, shard, nshards):
@@ -278,6 +285,53 @@ def run_case(case, ctx):
                     return
     except Exception as exc:
         ctx.count('pairing_call_raised:%s' % type(exc).__name__)
+    # the same pairing in the multivariate classes (they build steps, rule and Richardson stage in their own methods): the rule is
+    # asked for with the ratio of the generated steps, the Richardson stage carries it too, and the class differentiates a
+    # polynomial of degree < n + order exactly through the whole pipeline
+    global _RULE_RATIOS
+    mv = {1: ['Gradient', 'Jacobian'], 2: ['Hessdiag']}.get(n, [])
+    if mv and not (n == 2 and method == 'complex' and order > 2 and False):
+        cname = mv[(order + int(10 * ratio)) % len(mv)]
+        deg = max(1, min(n + order - 1, 5))
+        coef = [1.0, -0.75]
+
+        def fpoly(x):
+            x = np.asarray(x)
+            v = coef[0] * x[0] ** deg + coef[1] * x[1] ** deg + 0.5 * x[0] + 0.25 * x[1] * x[1]
+            return np.array([v, 2.0 * v]) if cname == 'Jacobian' else v
+        x0 = np.array([0.5, -0.3])
+        if n == 1:
+            exact = np.array([coef[0] * deg * x0[0] ** (deg - 1) + 0.5, coef[1] * deg * x0[1] ** (deg - 1) + 0.5 * x0[1]])
+        else:
+            exact = np.array([coef[0] * deg * (deg - 1) * x0[0] ** max(deg - 2, 0) if deg >= 2 else 0.0,
+                              (coef[1] * deg * (deg - 1) * x0[1] ** max(deg - 2, 0) if deg >= 2 else 0.0) + 0.5])
+        _RULE_RATIOS = []
+        try:
+            mobj = getattr(nd, cname)(fpoly, method=method, order=order, step=nd.MinStepGenerator(
+                base_step=0.25, step_ratio=ratio, num_steps=T + 4))
+            got = np.asarray(mobj(x0), dtype=float)
+            seen = list(_RULE_RATIOS)
+            _RULE_RATIOS = None
+            ctx.count('multivariate_pairing_asserted')
+            ctx.count('multivariate_pairing_class:' + cname)
+            if abs(float(mobj.richardson.step_ratio) - r) > 0:
+                ctx.reject('richardson_step_ratio_differs_from_rule_ratio', observed=float(mobj.richardson.step_ratio), expected=r,
+                           detail=dict(cls=cname))
+                return
+            bad = [float(v) for v in seen if v is not None and abs(float(v) - ratio) > 4 * EPS * ratio]
+            if bad or not seen:
+                ctx.reject('rule_requested_for_another_ratio_than_the_steps_have', observed=bad or 'rule never requested', expected=ratio,
+                           detail=dict(cls=cname))
+                return
+            row = got[0] if cname == 'Jacobian' else got
+            err = float(np.max(np.abs(row - exact)))
+            if method_order >= order and not err <= 1e-3 * (1.0 + float(np.max(np.abs(exact)))):      # (coarse: rounding of the smallest steps of ratio 10 reaches 1e-5)
+                ctx.reject('multivariate_class_not_exact_below_method_order', observed=row, expected=exact,
+                           detail=dict(cls=cname, degree=deg, err=err))
+                return
+        except Exception as exc:
+            _RULE_RATIOS = None
+            ctx.count('multivariate_pairing_call_raised:%s' % type(exc).__name__)
     # the same configuration reached through the setters of an object that has already been used with another
     # method (and possibly another order): the Richardson stage must be the one paired with the rule it now applies
     prng = np.random.default_rng(int(case.get('seed', 0)) + 17 * n + order)
